@@ -660,6 +660,14 @@ func (s *Store) Open() (retErr error) {
 			s.logger.Printf("clean snapshot failed mod time and size check, full restore needed")
 			return nil
 		}
+		if fp.SnapshotID != "" && len(snaps) > 0 && fp.SnapshotID != snaps[0].ID {
+			// The database file was checkpointed for a snapshot which never made it
+			// into the Snapshot Store. The log entries that snapshot covered would
+			// be applied to the file a second time.
+			s.logger.Printf("clean snapshot is for snapshot %s but latest snapshot is %s, full restore needed",
+				fp.SnapshotID, snaps[0].ID)
+			return nil
+		}
 
 		// The SQLite file is probably OK, so let's proceed. However we need to
 		// verify its checksum matches what we recorded at snapshot time. This is done
@@ -2704,7 +2712,6 @@ func (s *Store) fsmSnapshot() (fSnap raft.FSMSnapshot, retErr error) {
 	}()
 
 	var fsmSnapshot raft.FSMSnapshot
-	finalizer := s.createSnapshotFingerprint
 	if dueNext.IsFull() {
 		// We need to start the snapshoting process over again, starting with a full copy of the SQLite
 		// database. This happens when a node is snapshotting for the very first time, or in certain
@@ -2807,10 +2814,14 @@ func (s *Store) fsmSnapshot() (fSnap raft.FSMSnapshot, retErr error) {
 	stats.Add(numSnapshots, 1)
 	dur := time.Since(startT)
 	stats.Get(snapshotCreateDuration).(*expvar.Int).Set(dur.Milliseconds())
-	fs := FSMSnapshot{
+	var fs FSMSnapshot
+	fs = FSMSnapshot{
 		Type:        dueNext,
 		FSMSnapshot: fsmSnapshot,
-		Finalizer:   finalizer,
+		// The fingerprint is written before Raft closes the sink, so it records the
+		// snapshot it vouches for. If the node stops before that snapshot is installed
+		// in the Snapshot Store the fingerprint will not be trusted at restart.
+		Finalizer: func() error { return s.createSnapshotFingerprint(fs.sinkID) },
 		OnRelease: func(invoked, succeeded bool) {
 			if !invoked {
 				s.logger.Printf("persisting %s snapshot was not invoked on node ID %s", dueNext, s.raftID)
@@ -2892,7 +2903,13 @@ func (s *Store) fsmRestore(rc io.ReadCloser) (retErr error) {
 	vhook.Crash("restore.swapped")
 	s.logger.Printf("successfully opened database at %s due to restore", s.db.Path())
 	// Installed SQLite database is safe for fast restarts again.
-	if err := s.createSnapshotFingerprint(); err != nil {
+	var latestSnapID string
+	if snaps, err := s.snapshotStore.List(); err != nil {
+		return fmt.Errorf("failed to list snapshots post restore: %s", err)
+	} else if len(snaps) > 0 {
+		latestSnapID = snaps[0].ID
+	}
+	if err := s.createSnapshotFingerprint(latestSnapID); err != nil {
 		return fmt.Errorf("failed to create snapshot fingerprint post restore: %s", err)
 	}
 	vhook.Crash("restore.fp")
@@ -3148,7 +3165,10 @@ func (s *Store) selfLeaderChange(leader bool) {
 	}
 }
 
-func (s *Store) createSnapshotFingerprint() error {
+// createSnapshotFingerprint records the state of the SQLite file, and the ID of the
+// snapshot that file is consistent with, so a restart can skip restoring from the
+// Snapshot Store.
+func (s *Store) createSnapshotFingerprint(snapshotID string) error {
 	tmpFP := s.cleanSnapshotPath + ".tmp"
 	defer os.Remove(tmpFP)
 	mt, err := s.db.DBLastModified()
@@ -3167,9 +3187,10 @@ func (s *Store) createSnapshotFingerprint() error {
 	stats.Get(snapshotCRC32CreateDuration).(*expvar.Int).Set(dur.Milliseconds())
 
 	fp := &FileFingerprint{
-		ModTime: mt,
-		Size:    sz,
-		CRC32:   sum,
+		ModTime:    mt,
+		Size:       sz,
+		CRC32:      sum,
+		SnapshotID: snapshotID,
 	}
 	if err := fp.WriteToFile(tmpFP); err != nil {
 		return fmt.Errorf("failed to write snapshot fingerprint to temp file: %s", err)
